@@ -107,6 +107,12 @@ def check_contact(ctx):
         probe, grid, v = make_setup(rng)
         numel = probe.numelements
         t0, dt, ns = time_axis(rng, probe, grid, v)
+        if _ % 4 == 3:
+            # a tight acquisition window: it starts on the earliest two-way time and ends on the latest one (the last sample is used)
+            d_ = g.distance_pairwise(grid.to_1d_points(), probe.locations) / v
+            lo_, hi_ = 2 * float(d_.min()), 2 * float(d_.max())
+            if hi_ > lo_:
+                t0, dt = lo_, (hi_ - lo_) / (ns - 1)
         cplx = bool(rng.integers(0, 2))
         G = sym_data(rng, numel, ns, cplx)
         interp = str(rng.choice(["nearest", "linear"]))
@@ -149,6 +155,21 @@ def check_contact(ctx):
             l2.append(" ".join(["ctfm", interp[0], frac_s(F(fill)), "0", frac_s(F(t0)), frac_s(F(dt)), ",".join(f"{i}:{j}" for i, j in pairs),
                                 qmat(Gp.real), qmat(Gp.imag), qmat(lookup)]))
             meta.append((res[kind][0], cj, kind, len(pairs), np.abs(G).max() * 2 + abs(fill), extra, okm))
+        # unit amplitudes (a TxRxAmplitudes of ones, as an apodisation switched off) give the same image as no amplitudes
+        ones = tfm.TxRxAmplitudes(np.ones((grid.numpoints, numel)), np.ones((grid.numpoints, numel)))
+        for kind in ("fmc", "hmc"):
+            r0, pairs, fr0 = res[kind]
+            try:
+                r1 = tfm.contact_tfm(fr0, grid, v, amplitudes=ones, interpolation=interp, fillvalue=fill).res
+            except Exception as e:
+                ctx.violate(f"contact TFM with unit amplitudes raised {type(e).__name__}: {str(e)[:80]}", {**cj, "capture": kind}, {"kind": "contact_unit_amplitudes"})
+                continue
+            ctx.count("contact:unit_amplitudes")
+            extra_, okm_ = lookup_conditioning(lookup, lookup, pairs, t0, dt, fr0.timetraces, interp, wmax=2.0)
+            if not close_c(r1, r0, np.abs(G).max() * 2 + abs(fill), len(pairs), extra_, okm_):
+                ctx.violate(f"contact TFM ({kind}, {interp}) with amplitudes identically one differs from the image without amplitudes "
+                            f"(max difference {np.abs(np.asarray(r1, dtype=complex).ravel() - np.asarray(r0, dtype=complex).ravel()).max():.3g})",
+                            {**cj, "capture": kind}, {"kind": "contact_unit_amplitudes"})
         # raw acquisition data are often integers (ADC counts): contact TFM with its default weights gives the same image for
         # the same numbers held as int16 / int32 as for float64 (FMC, complete, and HMC)
         if np.isrealobj(G) and np.all(G == np.round(G)) and np.abs(G).max() < 3000:
